@@ -14,15 +14,15 @@ import (
 // client-side properties (C14 client half, C19).
 
 type SrvSession struct {
-	srv    *ScriptServer
-	Conn   net.Conn
-	rw     *ctlCipher
-	RunID  string
-	Login  M
-	At     time.Duration
-	mu     sync.Mutex
-	Msgs   []RecvMsg // messages received from the client on the control connection
-	Closed bool
+	srv      *ScriptServer
+	Conn     net.Conn
+	rw       *ctlCipher
+	RunID    string
+	Login    M
+	At       time.Duration
+	mu       sync.Mutex
+	Msgs     []RecvMsg // messages received from the client on the control connection
+	Closed   bool
 	ClosedAt time.Duration
 }
 
